@@ -105,17 +105,25 @@ def gen_client_cases(ctx, n):
 
 # ---------------------------------------------------------------- several exchanges on one connection
 def gen_exchange_cases(ctx, n):
-    """a case = list of connections; a connection = (phases, fin); a phase = the chunks that arrive while the request
-    of that exchange is in flight (one read-holding-registers per exchange; transaction ids count up over the whole
-    case). Bytes never get lost between exchanges: a reply that arrives only in part before its request times out is
-    completed during the next exchange, and the reply of that exchange still has to be found behind it."""
+    """a case = list of connections; a connection = (phases, fin); a phase = (kind, chunks): kind 'req' = the chunks
+    arrive while the request of that exchange is in flight (one read-holding-registers per exchange; transaction ids
+    count up over the whole case), kind 'idle' = they arrive while nothing is in flight. Bytes never get lost between
+    exchanges, and a malformed header (protocol id <> 0, length 0, length > 254) ENDS the connection, in flight or
+    idle: whatever follows it - more bytes, more requests - is not interpreted (the later exchanges never run)."""
     r = ctx.rng
     reply = lambda tx, v: fc.mbap(tx, 1, bytes([3, 2, v >> 8, v & 255]))
+    # the three kinds of malformed header; behind a too-long one the bytes it announced, laid out as a reply to the NEXT request
+    bad = {'proto': lambda tx: fc.mbap(tx, 1, b'', proto=5), 'len0': lambda tx: fc.mbap(tx, 1, b'', length=0),
+           'len255': lambda tx: fc.mbap(tx, 1, b'', length=255), 'len256': lambda tx: fc.mbap(tx, 1, b'', length=256), 'len65535': lambda tx: fc.mbap(tx, 1, b'', length=65535)}
     cases = [
-        [([[reply(0, 7)[:9]], [reply(0, 7)[9:] + reply(1, 9)]], 'pending')],            # timeout mid-reply, then the late rest + the next reply
-        [([[reply(0, 7)[:3]], [reply(0, 7)[3:8]], [reply(0, 7)[8:], reply(2, 5)]], 'pending')],
-        [([[reply(0, 1)], [reply(1, 2)], [reply(2, 3)]], 'eof')],
+        [([('req', [reply(0, 7)[:9]]), ('req', [reply(0, 7)[9:] + reply(1, 9)])], 'pending')],            # timeout mid-reply, then the late rest + the next reply
+        [([('req', [reply(0, 7)[:3]]), ('req', [reply(0, 7)[3:8]]), ('req', [reply(0, 7)[8:], reply(2, 5)])], 'pending')],
+        [([('req', [reply(0, 1)]), ('req', [reply(1, 2)]), ('req', [reply(2, 3)])], 'eof')],
     ]
+    for kind in bad:                                   # in flight, then traffic that would answer the next request; and idle
+        cases.append([([('req', [bad[kind](0)]), ('req', [reply(1, 0xBEEF)]), ('req', [reply(2, 3)])], 'pending')])
+        cases.append([([('idle', [bad[kind](0)]), ('req', [reply(0, 0xBEEF)])], 'pending')])
+        cases.append([([('req', [reply(0, 1)]), ('idle', [bad[kind](9)[:4], bad[kind](9)[4:]]), ('req', [reply(1, 2)]), ('req', [reply(2, 3)])], 'pending')])
     while len(cases) < n:
         tx = 0
         conns = []
@@ -123,45 +131,51 @@ def gen_exchange_cases(ctx, n):
             phases, carry, dead = [], b'', False
             for _ in range(r.choice([2, 2, 3, 4])):
                 k = r.random()
+                kind = 'req'
                 body = carry
                 carry = b''
-                if k < 0.35:
+                if dead:                                           # traffic behind a malformed header: must not be interpreted
+                    body += reply(tx, 0xBEEF) if r.random() < 0.7 else bytes(r.randrange(256) for _ in range(r.randrange(1, 20)))
+                elif k < 0.30:
                     body += reply(tx, r.randrange(65536))
-                elif k < 0.6:                                      # only part of the reply makes it before the timeout
+                elif k < 0.50:                                     # only part of the reply makes it before the timeout
                     f = reply(tx, r.randrange(65536))
                     cut = r.randrange(1, len(f))
                     body += f[:cut]
                     carry = f[cut:]
-                elif k < 0.75:                                     # a stale frame first
+                elif k < 0.62:                                     # a stale frame first
                     body += reply(r.choice([tx + 5, 65535]), 1) + reply(tx, r.randrange(65536))
-                elif k < 0.85:
+                elif k < 0.70:
                     body += fc.mbap(tx, 1, bytes([0x83, r.choice([1, 2, 3, 4])]))
-                elif k < 0.93:
+                elif k < 0.76:
                     pass                                           # nothing arrives
+                elif k < 0.82:                                     # unsolicited frames while idle
+                    kind = 'idle'
+                    body += reply(r.choice([tx, 999]), 4)
                 else:
-                    body += fc.mbap(tx, 1, b'', proto=r.randrange(1, 65536)) if r.random() < 0.5 else fc.mbap(tx, 1, b'', length=r.choice([0, 255]))
+                    kind = r.choice(['req', 'idle'])
+                    body += bad[r.choice(list(bad))](tx)
                     dead = True
                 cuts = [r.randrange(1, max(2, len(body))) for _ in range(r.choice([0, 1, 2]))]
-                phases.append(fc.split_at(body, cuts))
-                tx += 1
-                if dead:
-                    break
+                phases.append((kind, fc.split_at(body, cuts)))
+                tx += 1 if kind == 'req' else 0
             conns.append((phases, r.choice(['pending', 'pending', 'eof', 'err'])))
         cases.append(conns)
     return cases
 
 
 def exch_line(case):
-    return ' / '.join(fin + ' ' + ' | '.join(' '.join(c.hex() for c in ph) for ph in phases) for phases, fin in case)
+    return ' / '.join(fin + ' ' + ' | '.join(' '.join((['idle'] if k == 'idle' else []) + [c.hex() for c in ph]) for k, ph in phases) for phases, fin in case)
 
 
 def exch_coq(case):
-    return '[' + ';'.join('([%s], %s)' % (';'.join(vlib.coq_N_list(c) for ph in phases for c in ph), fc.FIN[fin]) for phases, fin in case) + ']'
+    return '[' + ';'.join('([%s], %s)' % (';'.join(vlib.coq_N_list(c) for k, ph in phases for c in ph), fc.FIN[fin]) for phases, fin in case) + ']'
 
 
 def expected_exchanges(case, spec_str):
     """per connection and exchange: what the request must end as, from the frames the Spec cuts out of that
-    connection's stream and the exchange during which each of them becomes complete"""
+    connection's stream and the exchange during which each of them becomes complete. The connection ends at the
+    first malformed header (during whichever exchange its seventh byte arrives): later exchanges never run."""
     out, tx = [], 0
     for (phases, fin), conn in zip(case, spec_str.split(' / ')):
         frames, pos, err_at = [], 0, None
@@ -173,27 +187,36 @@ def expected_exchanges(case, spec_str):
             elif it.startswith('BadFrame'):
                 err_at = pos + 7
         res, lo, dead = [], 0, False
-        for j, ph in enumerate(phases):
+        for j, (kind, ph) in enumerate(phases):
             hi = lo + sum(len(c) for c in ph)
             if dead:
                 res.append('NotRun')
                 continue
-            r = None
             here = [f for f in frames if lo < f[2] <= hi]
+            bad_here = err_at is not None and lo < err_at <= hi
+            last = j + 1 == len(phases)
+            if kind == 'idle':
+                res.append('Idle')
+                dead = bad_here or (last and fin != 'pending')
+                lo = hi
+                continue
+            r = None
             for idx, (t, p, _) in enumerate(here):
                 if t == tx:
                     r = ('Ok(%d)' % (p[2] * 256 + p[3]) if len(p) == 4 and p[0] == 3 and p[1] == 2 else
                          'Exception(%d)' % p[1] if len(p) == 2 and p[0] == 0x83 else 'BadResponse')
-                    if idx + 1 < len(here):
-                        return None                       # a complete frame behind the reply: who reads it is a race, not judged
+                    if idx + 1 < len(here) or bad_here:
+                        return None                       # something complete behind the reply: who reads it is a race, not judged
                     break
             if r is None:
-                if err_at is not None and lo < err_at <= hi:
+                if bad_here:
                     r, dead = 'BadFrame', True
-                elif j + 1 == len(phases) and fin != 'pending':
+                elif last and fin != 'pending':
                     r, dead = 'Io', True
                 else:
                     r = 'Timeout'
+            elif last and fin != 'pending':
+                dead = True
             res.append(r)
             tx += 1
             lo = hi
@@ -217,7 +240,7 @@ def run_exchanges(ctx, cases):
                 ctx.violation('client.exchange-results-differ-from-spec',
                               f'client, several exchanges on one connection `{exch_line(c)[:220]}`: request results {i}; the connection\'s stream, cut by the length '
                               f'fields only, prescribes {want} (frames: {spec[:160]}) - bytes received during an earlier exchange lost or re-read?',
-                              {'cases': [{'exchanges': [[[[x.hex() for x in ph] for ph in phases], fin] for phases, fin in c]}], 'impl': i, 'expected': want,
+                              {'cases': [{'exchanges': [[[[k, [x.hex() for x in ph]] for k, ph in phases], fin] for phases, fin in c]}], 'impl': i, 'expected': want,
                                'spec_frames': spec, 'harness_line': 'client_conns: ' + exch_line(c)})
     return bad, skipped, impl
 
@@ -300,7 +323,7 @@ def run_client(ctx, cases):
 
 
 def run(ctx):
-    ctx.translate(['Consts.v', 'RtuLengths.v', 'ParserShape.v'])
+    ctx.translate(['Consts.v', 'RtuLengths.v', 'ParserShape.v', 'ClientFatal.v'])
     models_ok = ctx.build_models(['Base.Show', 'Base.Frame', 'Model.Reader', 'Spec.Framing', 'Model.FramingEval'])
     ctx.prove()
     if ctx.tier == 'thorough':
@@ -314,7 +337,7 @@ def run(ctx):
         cs = ctx.replay['cases']
         client_cases = [[([bytes.fromhex(x) for x in ch], fin) for ch, fin in c['client']] for c in cs if isinstance(c, dict) and 'client' in c]
         server_replay = [fc.case_from_json(c['server']) for c in cs if isinstance(c, dict) and 'server' in c]
-        exchange_cases = [[([[bytes.fromhex(x) for x in ph] for ph in phases], fin) for phases, fin in c['exchanges']] for c in cs if isinstance(c, dict) and 'exchanges' in c]
+        exchange_cases = [[([(k, [bytes.fromhex(x) for x in ph]) for k, ph in phases], fin) for phases, fin in c['exchanges']] for c in cs if isinstance(c, dict) and 'exchanges' in c]
         cases = [fc.case_from_json(c) for c in cs if not isinstance(c, dict)]
         tags = [(set(), 'replay')] * len(cases)
     else:
@@ -406,6 +429,10 @@ def run(ctx):
     for c, i in zip(exchange_cases, exch_impl):
         if 'Timeout,Ok' in i:
             bump('client:ok_after_timeout_on_same_connection')
+        if 'BadFrame,NotRun' in i:
+            bump('client:malformed_header_in_flight_then_more_traffic')
+        if 'Idle,NotRun' in i:
+            bump('client:malformed_header_while_idle_then_more_traffic')
         bump('client:exchanges=%d' % min(4, sum(len(ph) for ph, _ in c)))
     for conns, i in zip(client_cases, client_impl):
         bump('client:connections=%d' % len(conns))
@@ -414,7 +441,7 @@ def run(ctx):
     if not ctx.replay:
         need = ['ending:UnknownProtocolId', 'ending:FrameLengthTooBig', 'ending:MbapLengthZero', 'ending:Io(UnexpectedEof)', 'ending:Pending',
                 'buffer:compacted', 'buffer:full_with_14_consumed', 'buffer:reset_when_empty', 'schedule:byte_per_byte', 'schedule:buffer_edge', 'stream:longer_than_buffer',
-                'client:ok_after_dead_connection', 'client:ok_after_timeout_on_same_connection', 'mode:resume', 'mode:cancel', 'cancel:abandoned_mid_frame']
+                'client:ok_after_dead_connection', 'client:ok_after_timeout_on_same_connection', 'client:malformed_header_in_flight_then_more_traffic', 'client:malformed_header_while_idle_then_more_traffic', 'mode:resume', 'mode:cancel', 'cancel:abandoned_mid_frame']
         missing = [k for k in need if classes.get(k, 0) < 3]
         ctx.oblige('generator-reaches-expected-classes', not missing, 'missing: ' + ','.join(missing))
     nontrivial = set(fc.to_line(c) for c, (impl, _, _, _) in zip(cases, results) if len(c[3]) >= 2 and 'F(' in impl)
